@@ -1,7 +1,7 @@
 (* C15 - opcode bodies regenerated from core/vm/instructions.go compute their
    specified functions (part 5). *)
 From Coq Require Import Lia ZifyBool ZifyN ZifyNat.
-From VF.C15 Require Import Model ProofsArith ProofsHeap ProofsTac ProofsOpsCommon.
+From VF.C15 Require Import Model ProofsArith ProofsHeap ProofsTac ProofsSpec ProofsOpsCommon.
 From VF.gen Require Import C15Ops.
 Local Open Scope Z_scope.
 
@@ -9,19 +9,19 @@ Local Open Scope Z_scope.
 Lemma opPop_ok : body_correct globals body_opPop
   (fun st _ => st <> []) (fun st m => (tl st, m)).
 Proof.
-  intros code pc [h nx st pl m] Hwf Hpre. unfold svals in *. cbn [stack heap mem] in *.
+  intros code pc [h nx st pl m sr] Hwf Hpre. unfold svals in *. cbn [stack heap mem] in *.
   destruct st as [|la ls]; [exfalso; apply Hpre; reflexivity|]. clear Hpre.
   open_wf Hwf. unfold run_body, body_opPop. run_sym.
   eexists. split; [reflexivity|]. split.
   - finish_wf. finish_range.
-  - rewrite pool_put_heap, pool_put_stack, pool_put_mem. reflexivity.
+  - split; [rewrite pool_put_heap, pool_put_stack, pool_put_mem; reflexivity|rewrite pool_put_stor; reflexivity].
 Qed.
 
 
 Lemma opMload_ok : body_correct globals body_opMload (mem_pre 32 1)
   (fun st m => (be_to_Z (firstn 32 (skipn (Z.to_nat (hd 0 st)) m)) :: tl st, m)).
 Proof.
-  intros code pc [h nx st pl m] Hwf (Hk & Hoff & Hmlen). unfold svals in *. cbn [stack heap mem] in *.
+  intros code pc [h nx st pl m sr] Hwf (Hk & Hoff & Hmlen). unfold svals in *. cbn [stack heap mem] in *.
   destruct st as [|la ls]; [cbn in Hk; lia|]. cbn [map hd tl] in *.
   open_wf Hwf. unfold run_body, body_opMload.
   assert (Hi : int64_of (h la) = h la) by (apply int64_of_small; unfold inrange in *; lia).
@@ -37,6 +37,7 @@ Proof.
     - rewrite firstn_length. lia. }
   run_sym; rewrite Hi, Hget; run_sym.
   all: eexists; (split; [reflexivity|]); split; [finish_wf; finish_range; exact Hrg|].
+  all: split; [|rewrite pool_put_stor; reflexivity].
   all: rewrite pool_put_heap, pool_put_stack, pool_put_mem; cbn [heap stack mem map]; simp_heap;
        rewrite ?map_upd_notin by notin; reflexivity.
 Qed.
@@ -44,13 +45,14 @@ Qed.
 Ltac finish_body :=
   eexists; (split; [reflexivity|]); split;
   [ finish_wf; finish_range
-  | rewrite ?pool_put_heap, ?pool_put_stack, ?pool_put_mem; cbn [heap stack mem map]; simp_heap;
+  | split; [|rewrite ?pool_put_stor; reflexivity];
+    rewrite ?pool_put_heap, ?pool_put_stack, ?pool_put_mem; cbn [heap stack mem map]; simp_heap;
     rewrite ?map_upd_notin by notin ].
 
 Lemma opMstore_ok : body_correct globals body_opMstore (mem_pre 32 2)
   (fun st m => (tl (tl st), mem_write m (Z.to_nat (hd 0 st)) (be_bytes 32 (hd 0 (tl st))))).
 Proof.
-  intros code pc [h nx st pl m] Hwf (Hk & Hoff & Hmlen). unfold svals in *. cbn [stack heap mem] in *.
+  intros code pc [h nx st pl m sr] Hwf (Hk & Hoff & Hmlen). unfold svals in *. cbn [stack heap mem] in *.
   destruct st as [|la [|lb ls]]; try (cbn in Hk; lia). cbn [map hd tl] in *.
   open_wf Hwf. unfold run_body, body_opMstore.
   assert (Hi : uint64_of (h la) = h la)
@@ -63,13 +65,13 @@ Proof.
   eexists. split; [reflexivity|]. split.
   - apply WF_pool_put; cbn [app]; [nodup|alloc_all|finish_range|glob|lia|].
     apply bytes_ok_write; [assumption|apply be_bytes_ok].
-  - rewrite pool_put_heap, pool_put_stack, pool_put_mem. reflexivity.
+  - split; [rewrite pool_put_heap, pool_put_stack, pool_put_mem; reflexivity|rewrite pool_put_stor; reflexivity].
 Qed.
 
 Lemma opMstore8_ok : body_correct globals body_opMstore8 (mem_pre 1 2)
   (fun st m => (tl (tl st), mem_write m (Z.to_nat (hd 0 st)) [Z.to_N (hd 0 (tl st) mod 256)])).
 Proof.
-  intros code pc [h nx st pl m] Hwf (Hk & Hoff & Hmlen). unfold svals in *. cbn [stack heap mem] in *.
+  intros code pc [h nx st pl m sr] Hwf (Hk & Hoff & Hmlen). unfold svals in *. cbn [stack heap mem] in *.
   destruct st as [|la [|lb ls]]; try (cbn in Hk; lia). cbn [map hd tl] in *.
   open_wf Hwf. unfold run_body, body_opMstore8.
   assert (Hi : int64_of (h la) = h la) by (apply int64_of_small; unfold inrange in *; lia).
@@ -83,18 +85,44 @@ Proof.
   - apply WF_mk; cbn [app]; [nodup|alloc_all|finish_range|glob|lia|].
     apply bytes_ok_write; [assumption|]. constructor; [|constructor].
     pose proof (Z.mod_pos_bound (h lb) 256 ltac:(lia)). lia.
-  - reflexivity.
+  - split; reflexivity.
 Qed.
 
 Lemma opMsize_ok : body_correct globals body_opMsize
   (fun _ m => Z.of_nat (length m) < tt63)
   (fun st m => (Z.of_nat (length m) :: st, m)).
 Proof.
-  intros code pc [h nx st pl m] Hwf Hmlen. unfold svals in *. cbn [stack heap mem] in *.
+  intros code pc [h nx st pl m sr] Hwf Hmlen. unfold svals in *. cbn [stack heap mem] in *.
   open_wf Hwf. unfold run_body, body_opMsize.
   assert (Hw : wrap_i64 (wrap_i64 (Z.of_nat (length m))) = Z.of_nat (length m)).
   { pose proof tt63_pos. rewrite (wrap_i64_small (Z.of_nat _)) by lia. apply wrap_i64_small. lia. }
   run_sym; rewrite ?Hw.
   all: finish_body; try reflexivity.
   all: apply small_inrange; pose proof tt64_double; pose proof tt63_pos; lia.
+Qed.
+
+(* ---- SLOAD / SSTORE over the abstract contract storage ------------------------------------ *)
+Lemma opSload_ok : sload_correct globals body_opSload.
+Proof.
+  intros code pc [h nx st pl m sr] k r Hwf Hsr Hst. unfold svals in Hst. cbn [stack heap stor] in *.
+  destruct st as [|la ls]; [discriminate|]. cbn [map] in Hst. injection Hst as <- <-.
+  open_wf Hwf. unfold run_body, body_opSload.
+  replace (st_get sr (h la)) with (st_get sr (hash_of_big (h la)))
+    by (rewrite hash_of_big_id by assumption; reflexivity).
+  pose proof (st_get_range sr (hash_of_big (h la)) Hsr) as Hrg.
+  run_sym. rewrite be_roundtrip_word by exact Hrg.
+  eexists. split; [reflexivity|]. split; [finish_wf; finish_range; exact Hrg|].
+  split; [finish_vals; reflexivity|split; reflexivity].
+Qed.
+
+Lemma opSstore_ok : sstore_correct globals body_opSstore.
+Proof.
+  intros code pc [h nx st pl m sr] k v r Hwf Hst. unfold svals in Hst. cbn [stack heap stor] in *.
+  destruct st as [|la [|lb ls]]; try discriminate. cbn [map] in Hst. injection Hst as <- <- <-.
+  open_wf Hwf. unfold run_body, body_opSstore.
+  replace (st_set sr (h la) (h lb)) with (st_set sr (hash_of_big (h la)) (hash_of_big (h lb)))
+    by (rewrite !hash_of_big_id by assumption; reflexivity).
+  run_sym.
+  eexists. split; [reflexivity|]. split; [finish_wf; finish_range|].
+  split; [finish_vals|]. split; [rewrite pool_put_mem|rewrite pool_put_stor]; reflexivity.
 Qed.
